@@ -363,7 +363,7 @@ func init() {
 	register(&Prop{
 		ID: "C13", Cmd: "c13",
 		Rule: "random trees built with the real constructors (arity 0-4, depth up to 4, terminal and EMPTY leaves, non-terminals without children, alternative lists at the root, interpreters that are plain / StaticChecker / NodeTransformer / both / absent), a stop node for Walk and a failing node for StaticCheck and for Transform chosen at random among all nodes (or none). Non-trivial = at least 4 nodes visited in post-order.",
-		Count: quickN(6000, 60000),
+		Count: quickN(6000, 240000),
 		Gen: func(rng *rand.Rand, tier string, i int) *Sexp {
 			next := 1
 			tree := c13GenTree(rng, 2+rng.Intn(3), &next, true)
